@@ -143,6 +143,11 @@ Print Assumptions Blocks_lines_lf_terminated.
    open_new_blocks_loop is bounded, and the candidate open-spine invariant below was evaluated and found FALSE
    (corrected version: Blocks_total_spine_corrected_on_corpus).  The list REMAINING that is up to date is in the
    comment of the fourth round; the one below is the state after the third round.
+   Fifth round (end of this file, Proofs/BlocksTotal5*.v): FUEL is done for the whole parse (Blocks_total_partial_no_fuel:
+   parse_blocks never answers OutOfFuel, every input, every option set) and the list of what remains is a THEOREM:
+   Blocks_total_partial_ok_or_remaining — parse_blocks o x is Ok or a Panic at one of the 36 sites of
+   Blocks_total_remaining_sites_list.  The comment at the very end of this file says, site by site, which invariant
+   excludes it; the lists below are the state after the third round.
    REMAINING for the full statement (no whole-parse theorem yet):
      open-spine sites   mod.rs:finalize_borrowed:assert!(ast.open), mod.rs:add_line:assert!(ast.open),
                         mod.rs:add_text_to_container:self.finalize(self.current).unwrap(),
@@ -909,7 +914,9 @@ Print Assumptions Blocks_total_partial_fuel_description_list.
    (checked at each occurrence) or belongs to a leaf function that is total for all arguments (trim / ltrim / rtrim,
    unescape + shift_buf_left, unescape_html, manual_scan_link_url, table.rs row).  Intersected with the tree walk, the
    cursor walk and the fuel walk: for EVERY input byte string and EVERY option set parse_blocks answers Ok, or Panic
-   at one of the 37 sites of rem_sites (pinned verbatim below), never OutOfFuel. *)
+   at one of the 36 sites of rem_sites (pinned verbatim below), never OutOfFuel.  strings.rs:clean_title:title[1..title_len - 1]
+   (clean_title panics on a title of length 1: StrLeaf_clean_title_refuted) is excluded locally: its only caller in the
+   block phase, parse_reference_inline, hands it the empty title or a scan_link_title match, at least 2 bytes. *)
 From V Require Proofs.BlocksTotal5Only.
 
 Theorem Blocks_total_remaining_sites_list :
@@ -949,8 +956,7 @@ Theorem Blocks_total_remaining_sites_list :
     "strings.rs:line_at:bytes[end..]";
     "strings.rs:remove_trailing_blank_lines:line.len() - 1";
     "strings.rs:chop_trailing_hashtags:line.len() - 1";
-    "strings.rs:chop_trailing_hashtags:line[n]";
-    "strings.rs:clean_title:title[1..title_len - 1]" ].
+    "strings.rs:chop_trailing_hashtags:line[n]" ].
 Proof. reflexivity. Qed.
 Print Assumptions Blocks_total_remaining_sites_list.
 
@@ -963,3 +969,65 @@ Theorem Blocks_total_partial_ok_or_remaining : forall o x,
   (exists r, parse_blocks o x = Ok r) \/ (exists s, parse_blocks o x = Panic s /\ In s BlocksTotal5Only.rem_sites).
 Proof. exact BlocksTotal5Only.parse_blocks_ok_or_rem. Qed.
 Print Assumptions Blocks_total_partial_ok_or_remaining.
+
+(* ---- state after the fifth round.  PROVED for the whole parse_blocks, EVERY input byte string (valid UTF-8 or not),
+   EVERY option set: no OutOfFuel; 76 + 9 Panic sites unreachable (tree_sites, cur_sites, the sites of the leaf
+   functions that are total for all arguments: strings.rs ltrim / rtrim (2), unescape (3) with shift_buf_left (1),
+   entity.rs:unescape:hex digit - 9, inlines.rs:manual_scan_link_url:input[1..i - 1], and
+   strings.rs:clean_title:title[1..title_len - 1] by a local argument; strings.rs:normalize_code:r[0] is not called by
+   the block phase); any Panic is at one of the 36 sites of rem_sites.
+   REMAINING for Blocks_total_full_statement = exactly rem_sites.  What excludes each of them (read off the model; NOT
+   proved unless said), so that a later round can pick one family, prove its own `sg (but L) ..` walk and intersect:
+     open spine (4)   finalize_borrowed:assert!(ast.open), add_line:assert!(ast.open),
+                      add_text_to_container:self.finalize(self.current).unwrap(): spine_ok2 between lines with P1 / P2
+                      inside a line (comment of the fourth round).
+                      add_child:self.finalize(parent).unwrap() needs NO spine: finalize answers the parent computed
+                      before it closes the node, so None means `parent` has no parent, i.e. (W) it is the root, a
+                      Document; the Document accepts every kind add_child is called with
+                      (Blocks_total_document_accepts_add_child_kinds) except Item, DescriptionItem, DescriptionTerm,
+                      DescriptionDetails, and those four are added under a node that accepts them at once (the List
+                      handle_list has just created or matched; the DescriptionList created / reopened, the parent of a
+                      DescriptionItem — SV —, the DescriptionItem just created): walk = handlers with J + the kind of the
+                      node add_child has just created (BlocksTotal4Atx.add_child_gen_get); the expensive part is
+                      parse_desc_list_details (kinds through reopen_ast_nodes / set_start).
+     state (1)        finalize_borrowed:self.line_number - 1: `ps_curline_len st = 0 \/ 1 <= ps_line_number st`; the two
+                      fields are written by process_line and the front matter prologue only (every other function is a
+                      frame for them; Proofs/BlocksTotal4Frame.v has the frame lemmas KC for cursor + curline_len).
+     tree values      add_child:assert!(start_column > 0): every call of add_child passes S _ or 1; the table callers
+                      pass start columns read from the tree: invariant `every node has bi_sc >= 1` + row facts
+                      (cell.start_offset >= paragraph_offset: cell_start_loop stops at paragraph_offset).
+                      parse_html_block_prefix:unreachable!(): every HtmlBlock in the tree has block type 1..7
+                      (scan_html_block_start answers 1..6, scan_html_block_start_7 answers 7; `matched mod 256`).
+                      finalize_borrowed:assert!(pos < content.len()), content.as_bytes()[pos]: every fenced CodeBlock
+                      in the tree other than the container just created has a content that contains LF and no CR (the
+                      opening line is added by add_text_to_container before anything can finalize the block: the new
+                      node is a leaf and is not self.current, so finalize_up_to does not meet it).
+                      table.rs try_inserting_table_header_paragraph (content[..paragraph_offset], line_offsets[n],
+                      start.line + newlines - 1), try_opening_header (content.len() - 2 [- paragraph_offset], cell
+                      arithmetic), try_opening_row (cell arithmetic): paragraph content ends with LF (so
+                      paragraph_offset + 2 <= |content| when row answers Some: without the final LF the model panics,
+                      e.g. content x LF a), |line_offsets| = number of lines of content, bi_sl >= 1, bi_sc >= 1, and
+                      facts about `row` (offsets of the cells inside the string).
+                      inlines.rs:peek_char_n (the assert c > 0): paragraph content is NUL-free (feed replaces NUL).
+                      strings.rs:line_at:bytes[end..]: end <= |s| in fm_line_at (scan_line_end_bounds,
+                      Proofs/BlocksTotal4Fuel.v) — local, no invariant.
+     refuted leaves   remove_trailing_blank_lines (panics on the empty string only): called on the front matter (not
+                      empty: it contains the delimiter) and on the content of an indented code block at finalize (not
+                      empty once its first line is added: same window argument as for fenced blocks).
+                      chop_trailing_hashtags (panics iff every byte of the line is space / tab / CR / LF): called by
+                      add_text_to_container on the WHOLE line when the container is an ATX heading and the rest is
+                      not blank; an ATX heading is a container only on the line that opened it (check_open_blocks
+                      never matches a Heading), and that line contains its # — needs `container is an ATX heading ->
+                      opened by this line` through open_new_blocks; when first_nonspace < |line| it is local (the byte
+                      at first_nonspace is neither space, tab nor a line end); the case offset = |line| (the ATX
+                      scanner consumed the LF) is the one that needs the #.
+                      clean_title: DONE in this round (local to parse_reference_inline).
+     UTF-8 (12)       add_line, handle_alert, handle_footnote, finalize_borrowed (info string), content[seeked..],
+                      link_label, clean_url / clean_title, try_inserting_table_header_paragraph, the three
+                      char-boundary slices of strings.rs front matter: boundary invariant on valid UTF-8 input (the
+                      offset and every stored slice boundary is a char boundary; Blocks_total_utf8_suffix_partial and
+                      at_boundary give the four sufficient conditions).  These are the only sites that need the
+                      premise utf8_valid x of Blocks_total_full_statement (Blocks_total_needs_utf8).
+   A `but L` walk has to restate a lemma for every function between the site and parse_blocks (the allowed set is part
+   of the statement); Proofs/BlocksTotal5Only.v is the complete list of those functions with scripts that need no
+   invariant (copy it with the new allowed set; only the functions that reach a site of L need a premise). *)
